@@ -54,9 +54,9 @@ impl SessionCfg {
             measure_alloc: false,
             trace_above: 0,
             budget_ops_base: 10_000,
-            budget_ops_per_byte: 256,
+            budget_ops_per_byte: 64,
             budget_bytes_base: 1 << 20,
-            budget_bytes_per_byte: 256,
+            budget_bytes_per_byte: 64,
             chunking: Chunking::Full,
             max_tracks: 12,
             halt_after_micros: 400_000,
